@@ -411,6 +411,28 @@ class ExprGrammar(Grammar):
 
     def post_force(self, v, li):
         ctx = self.ctx
+        n0 = len(ctx.pc)
+        doms = {k: set(d) for k, d in ctx.dom.items()} if False else None
+        # evaluate the constraints that are about to be added against the finite domains *before* they narrow them
+        pre_add = ctx.add
+        verdicts = []
+
+        def add(c, dom=True):
+            if c is not True and c is not False and isinstance(c, z3.ExprRef):
+                verdicts.append(ctx.dom_eval(c))
+            pre_add(c, dom)
+        ctx.add = add
+        try:
+            self.post_force0(v, li)
+        finally:
+            ctx.add = pre_add
+        if not ctx.completing and verdicts:
+            if any(r == 'F' for r in verdicts) or (any(r is None for r in verdicts) and not ctx.check()):
+                from interp import Infeasible
+                raise Infeasible('grammar constraint contradicts the path condition')
+
+    def post_force0(self, v, li):
+        ctx = self.ctx
         uid = li.uid
         if v.ty == 'Expr':
             vn = self.defs['Expr'].variants[v.variant][0]
@@ -666,8 +688,8 @@ class StmtPolicy(ExprPolicy):
 
 
 class StmtGrammar(ExprGrammar):
-    def post_force(self, v, li):
-        ExprGrammar.post_force(self, v, li)
+    def post_force0(self, v, li):
+        ExprGrammar.post_force0(self, v, li)
         ctx = self.ctx
         uid = li.uid
         # try needs a handler or a finalizer
